@@ -679,6 +679,12 @@ func (x *Exec) freshRef(st *State, hint string) Term {
 			st.assume(Term{fmt.Sprintf("(forall ((?o Ref)) (! (distinct (s-arr (select %s ?o)) %s) :pattern ((select %s ?o))))", cur.S, r.S, cur.S), "Bool"})
 		case "(Array Ref (Array Int Ref))":
 			st.assume(Term{fmt.Sprintf("(forall ((?o Ref) (?i Int)) (! (distinct (select (select %s ?o) ?i) %s) :pattern ((select (select %s ?o) ?i))))", cur.S, r.S, cur.S), "Bool"})
+		default:
+			// map value arrays (Array Ref (Array K Ref)): a fresh object is not stored in any map
+			if strings.HasPrefix(sortS, "(Array Ref (Array ") && strings.HasSuffix(sortS, " Ref))") && sortS != "(Array Ref (Array Int Ref))" {
+				ks := strings.TrimSuffix(strings.TrimPrefix(sortS, "(Array Ref (Array "), " Ref))")
+				st.assume(Term{fmt.Sprintf("(forall ((?o Ref) (?k %s)) (! (distinct (select (select %s ?o) ?k) %s) :pattern ((select (select %s ?o) ?k))))", ks, cur.S, r.S, cur.S), "Bool"})
+			}
 		case "(Array Ref (Array Int Slice))":
 			st.assume(Term{fmt.Sprintf("(forall ((?o Ref) (?i Int)) (! (distinct (s-arr (select (select %s ?o) ?i)) %s) :pattern ((select (select %s ?o) ?i))))", cur.S, r.S, cur.S), "Bool"})
 		}
